@@ -19,8 +19,8 @@ CHECKS = {
    note="Cryptographic hardness assumed; expiry polling by InteractionModel::run is outside this harness (an expired window closes at the next PASE request).",
    tech="exhaustive single-fault injection over the message/field alphabet and window-action placement on the real two-node handshake"),
  "C03": dict(cat="exploration",
-   text="On two real nodes with pre-established CASE / PASE sessions (plus a second, differently keyed live session at each end), every datagram of an honest conversation - request of every length of a boundary catalog, reliable and not, the reply with piggy-backed acknowledgement, standalone acknowledgements - is attacked before delivery with every single-bit flip of the whole datagram, every truncation, two extensions, another live session's id, counter +-1 and delivery to the opposite direction; after each injection the destination's session-table projection (receive windows, transmit counters, exchange slots, keys, flags) must be bit-identical and nothing may reach the application; the untouched datagram must then be accepted with identical protocol id, opcode and payload.",
-   note="Unicast CASE and PASE sessions only (group sessions not swept); header shapes limited to what the sending API produces; replay of unaltered datagrams belongs to C04/C09.",
+   text="On two real nodes with pre-established CASE / PASE sessions (plus a second, differently keyed live session at each end), every datagram of an honest conversation - request of every length of a boundary catalog, reliable and not, the reply with piggy-backed acknowledgement, standalone acknowledgements, and a group data message per length - is attacked before delivery with every single-bit flip of the whole datagram, every truncation, two extensions, another live session's id, counter +-1 and delivery to the opposite direction (group messages also: counter moved far ahead / behind, another sender id, another group id the node has a key for); after each injection the destination's session-table projection (receive windows incl. the per-sender group windows, transmit counters, exchange slots, keys, flags) must be bit-identical and nothing may reach the application; the untouched datagram must then be accepted with identical protocol id, opcode and payload.",
+   note="Unicast CASE / PASE sessions and group data messages of one sender (group control / MCSP messages not swept); header shapes limited to what the sending API produces; replay of unaltered datagrams belongs to C04/C09.",
    tech="bounded exhaustive input (mutation) enumeration on the real receive path with a state-invariance oracle"),
  "C04": dict(cat="model_checking",
    text="All histories of offered counters up to the stated depth over a relative boundary alphabet are executed on the real receive window (Session / GroupCtrStore) and compared step by step with a set-of-accepted-counters reference; states deduplicated on a canonical projection.",
